@@ -18,6 +18,7 @@ theorem nextBar_wiring (s : ChandelierExit F) (b : Bar F)
       { long := Scalar.sub hi (Scalar.mul a s.multiplier),
         short := Scalar.add lo (Scalar.mul a s.multiplier) }) := by
   unfold nextBar
+  try simp only [gen_helper]
   simp [h1, h2, h3]
 
 /-- panic propagation: the ATR never panics, so `nextBar` panics iff a window does -/
@@ -26,6 +27,7 @@ theorem nextBar_none_iff (s : ChandelierExit F) (b : Bar F) :
   -- independent of the order in which the three components are called
   have h1 := AverageTrueRange.nextBar_eq s.atr b
   unfold nextBar
+  try simp only [gen_helper]
   cases h2 : s.min.nextBar b <;> cases h3 : s.max.nextBar b <;> simp [h1, h2, h3]
 
 theorem nextBar_total (s : ChandelierExit F) (b : Bar F) (h : WF s) :
